@@ -177,7 +177,32 @@ func checkJSONRelink(c *Ctx, parse *ssa.Function, seqT types.Type) {
 		st := unknown
 		why := fmt.Sprintf("%d AddFeature calls in Parse and its helpers, the model needs 1", nAF)
 		if nAF == 0 && len(view.fns) == len(family(parse)) {
-			st, why = broken, "the decoded features are never re-added with AddFeature: their ParentSequence stays nil (json:\"-\"), so GetSequence fails on every feature read from JSON"
+			// the parent link may also be restored directly: features[i].ParentSequence = &sequence for every i
+			linked := false
+			view.each(func(g *ssa.Function, i ssa.Instruction) {
+				if stx, ok := i.(*ssa.Store); ok {
+					if fa, ok := stx.Addr.(*ssa.FieldAddr); ok && storeTarget(fa) == "Feature.ParentSequence" {
+						linked = true
+						st, why = unknown, "ParentSequence is assigned directly at "+c.W.pos(stx.Pos())
+						if entry := loopBodyEntry(stx.Block()); entry != nil && pathCond(view.tb[g], entry, stx.Block()).Op == "true" {
+							if a, isAlloc := unwrap(stx.Val).(*ssa.Alloc); isAlloc && a == dec {
+								st = holds
+							} else if ph, isPhi := unwrap(stx.Val).(*ssa.Phi); isPhi && len(ph.Edges) == 1 && unwrap(ph.Edges[0]) == ssa.Value(dec) {
+								st = holds
+							} else if view.T(g, stx.Val).String() == decT {
+								st = holds
+							}
+						}
+					}
+				}
+			})
+			if !linked {
+				st, why = broken, "the decoded features are never re-added with AddFeature (nor is their ParentSequence assigned): it stays nil (json:\"-\"), so GetSequence fails on every feature read from JSON"
+			}
+		}
+		if st == holds {
+			c.ok("RELINK", "Parse:AddFeature for every decoded feature", parse.Pos(), "every decoded feature's ParentSequence is set to the decoded sequence, unconditionally, in a loop over the features")
+			return
 		}
 		c.judge(st, "RELINK", "Parse:AddFeature for every decoded feature", parse.Pos(), "", why)
 		return
